@@ -756,6 +756,7 @@ void tokenize_cleanup()
             && next->IsString("SQL", false))
          || (  (*pc->GetStr().c_str() == '$')
             && pc->IsNot(CT_SQL_WORD)
+            && pc->IsNot(CT_IGNORED)
                /* but avoid breaking tokenization for C# 6 interpolated strings. */
             && (  !language_is_set(lang_flag_e::LANG_CS)
                || (  pc->Is(CT_STRING)
@@ -812,6 +813,7 @@ void tokenize_cleanup()
                }
 
                if (  (tmp->Len() > 0)
+                  && tmp->IsNot(CT_IGNORED)
                   && (  unc_isalpha(*tmp->GetStr().c_str())
                      || (*tmp->GetStr().c_str() == '$')))
                {
